@@ -659,6 +659,8 @@ func (cr *caseRun) opRestartWithBefore(whenClosed func(), beforeRecord func()) {
 		for nsqd.VerifHits("exit:topics-closed") == h0 && time.Now().Before(deadline) {
 			time.Sleep(time.Millisecond)
 		}
+		// did the close run to its end while the other party was still parked, or did it wait for it?
+		cr.tag(fmt.Sprintf("close-waited-for-parked-party=%v", nsqd.VerifHits("exit:topics-closed") == h0))
 		whenClosed()
 		<-done
 		for _, sc := range cr.clients {
